@@ -303,8 +303,17 @@ func (ex *Exec) loadGlobal(st *State, name string, t types.Type) Value {
 		return v
 	}
 	if k, ok := ex.sentinelErrors()[name]; ok {
-		// package-level error created by errors.New in init: non-nil, with an identity of its own
-		return Value{T: t, L: []*Term{Int(int64(typeTagByName("*errors.errorString"))), Int(int64(-2000000000 - k))}}
+		// package-level error created by errors.New in init: non-nil, with an identity of its own,
+		// its constant text, and nothing wrapped
+		tag, val := Int(int64(typeTagByName("*errors.errorString"))), Int(int64(-2000000000-k))
+		if st != nil {
+			if txt, has := sentinelText[name]; has {
+				st.assume(Eq(UF("errtext", SInt, tag, val), strConst(txt)))
+			}
+			st.assume(Eq(UF("unwrap.tag", SInt, tag, val), Int(0)))
+			st.assume(Eq(UF("unwrap.val", SInt, tag, val), Int(0)))
+		}
+		return Value{T: t, L: []*Term{tag, val}}
 	}
 	ls := leavesOf(t)
 	v := Value{T: t, L: make([]*Term, len(ls))}
@@ -714,6 +723,7 @@ func (ex *Exec) repoPtrTags() []int {
 }
 
 var sentinelCache map[string]int
+var sentinelText = map[string]string{}
 
 // sentinelErrors: package-level variables assigned the result of errors.New in init.
 func (ex *Exec) sentinelErrors() map[string]int {
@@ -739,7 +749,11 @@ func (ex *Exec) sentinelErrors() map[string]int {
 					continue
 				}
 				if callee := call.Common().StaticCallee(); callee != nil && callee.String() == "errors.New" {
-					names = append(names, g.Pkg.Pkg.Path()+"."+g.Name())
+					n := g.Pkg.Pkg.Path() + "." + g.Name()
+					names = append(names, n)
+					if c, ok := call.Common().Args[0].(*ssa.Const); ok && c.Value != nil && c.Value.Kind() == constant.String {
+						sentinelText[n] = constant.StringVal(c.Value)
+					}
 				}
 			}
 		}
